@@ -5,7 +5,7 @@
    offset AND the Content-Length seen so far -- is a sound summary of the scanned prefix on every
    extension of the buffer. *)
 From Coq Require Import List Arith NArith Bool Lia.
-From EZK Require Import Lib.Bytes Lib.Num Lib.Utf8 Model.C03 Proofs.C03 Proofs.C03b.
+From EZK Require Import Model.Forms9 Proofs.Forms9 Gen.Tables Lib.Bytes Lib.Num Lib.Utf8 Model.C03 Proofs.C03 Proofs.C03b.
 Import ListNotations.
 Close Scope N_scope.
 Open Scope nat_scope.
@@ -113,3 +113,13 @@ Example C03_example_segmentation :
   run_framed (fun _ => true) [firstn 42 s; firstn 10 (skipn 42 s); skipn 52 s] = run_framed (fun _ => true) [s] /\
   length (run_framed (fun _ => true) [s]) = 2.
 Proof. vm_compute. split; reflexivity. Qed.
+
+(* "heads are at most 4096 bytes": a complete head of exactly the limit is accepted, only a longer one is refused *)
+Theorem C03_head_limit_guard : Tables.head_limit_inclusive = true.
+Proof. reflexivity. Qed.
+
+Theorem C03_head_of_the_limit_accepted : Tables.head_limit_inclusive = true -> forall limit n, head_accepted limit n = true <-> (n <= limit)%nat.
+Proof. exact head_here. Qed.
+
+Theorem C03_head_limit_exclusive_refuted : forall limit, head_accepted_form false limit limit = false.
+Proof. exact head_at_limit_refused_otherwise. Qed.
